@@ -802,8 +802,31 @@ pub mod simd {
 
     pub fn search(which: &str) -> Option<String> {
         let limit: usize = which.rsplit(':').next().and_then(|x| x.parse().ok()).unwrap_or(64);
-        if which.starts_with("simd_sse:") { sweep!(FftPlannerSse, f32, limit, 2e-4); sweep!(FftPlannerSse, f64, limit, 1e-11); return None; }
-        if which.starts_with("simd_avx:") { sweep!(FftPlannerAvx, f32, limit, 2e-4); sweep!(FftPlannerAvx, f64, limit, 1e-11); return None; }
+        // rounding error must not grow faster than ~ eps * log2(n): a few large lengths against the portable transform with a tolerance tied
+        // to the machine epsilon (16 eps log2 n, relative L2; the clean tree stays below 1/20 of it)
+        macro_rules! large {
+            ($planner:ident, $t:ty, $eps:expr) => {{
+                if let Ok(mut p) = crate::$planner::<$t>::new() {
+                    let sizes: &[usize] = if limit > 600 { &[131072, 196608, 262144, 327680, 229376] } else { &[131072] };
+                    for &n in sizes { for d in [FftDirection::Forward, FftDirection::Inverse] {
+                        let desc = format!("{}::<{}>.plan_fft({}, {:?})", stringify!($planner), stringify!($t), n, d);
+                        eprintln!("CASE {desc} (large-length accuracy)");
+                        let f = p.plan_fft(n, d);
+                        let reference = crate::FftPlannerScalar::<$t>::new().plan_fft(n, d);
+                        let mut a: Vec<Complex<$t>> = (0..n).map(gen).collect();
+                        let mut b = a.clone();
+                        let mut s1 = vec![Complex::new(0.0, 0.0); f.get_inplace_scratch_len()];
+                        let mut s2 = vec![Complex::new(0.0, 0.0); reference.get_inplace_scratch_len()];
+                        f.process_with_scratch(&mut a, &mut s1); reference.process_with_scratch(&mut b, &mut s2);
+                        let tol = 16.0 * $eps * (n as f64).log2();
+                        { let mut nu = 0.0f64; let mut de = 0.0f64; for (x, y) in a.iter().zip(b.iter()) { let (dr, di) = ((x.re - y.re) as f64, (x.im - y.im) as f64); nu += dr * dr + di * di; de += (y.re as f64).powi(2) + (y.im as f64).powi(2); } eprintln!("INFO {desc}: relative L2 distance to the portable transform {:e} (tolerance {:e})", (nu / de.max(1e-300)).sqrt(), tol); }
+                        if !close(&a, &b, tol) { return Some(format!("{desc}: differs from the portable transform by more than 16 eps log2(n) = {:e} (relative L2): the rounding error grows with the length", tol)); }
+                    }}
+                }
+            }};
+        }
+        if which.starts_with("simd_sse:") { sweep!(FftPlannerSse, f32, limit, 2e-4); sweep!(FftPlannerSse, f64, limit, 1e-11); large!(FftPlannerSse, f32, 1.1920929e-7); large!(FftPlannerSse, f64, 2.220446049250313e-16); return None; }
+        if which.starts_with("simd_avx:") { sweep!(FftPlannerAvx, f32, limit, 2e-4); sweep!(FftPlannerAvx, f64, limit, 1e-11); large!(FftPlannerAvx, f32, 1.1920929e-7); large!(FftPlannerAvx, f64, 2.220446049250313e-16); return None; }
         if which.starts_with("simd_mem:") {
             // run under valgrind/memcheck by run.py: every buffer is a heap block of EXACTLY the required size, so a read or write one
             // element outside a caller's slice (which the canary pads of `one` cannot see for reads) is an invalid access
